@@ -1,6 +1,7 @@
 (** * C19 — Timestamps round-trip and are independent of content (pinned statements). *)
 From stdpp Require Import gmap list.
 From Coq Require Import NArith ZArith.
+From VFS Require Import Proofs.ConcProofs.
 From VFS Require Import Core.Types Core.Calls Base.MemFS Base.PhysFS Base.Embedded
   Proofs.MemProofs Proofs.MemCalls Proofs.MoreMem Proofs.PhysProofs Proofs.PhysTimes.
 
@@ -108,6 +109,18 @@ Example C19_example :
   Ok (mkMeta Dir 0 (Some (TSet 7)) (Some (TSet (-5))) (Some TAuto)).
 Proof. vm_compute. reflexivity. Qed.
 
+(** reading is not writing: opening a file stamps ITS access time and nothing else - every entry keeps its type,
+    bytes, creation and modification time, and no entry appears or disappears (so a lower overlay layer read through
+    the overlay keeps every timestamp but that one access time: finding D20) *)
+Theorem C19_open_file_stamps_only_the_access_time : forall (s : mstate) (p q : list (list N)),
+  match (fst (msec_sem (MGetReader p) s)) !! q, s !! q with
+  | Some f', Some f => f_type f' = f_type f /\ f_content f' = f_content f /\ f_created f' = f_created f /\
+                       f_modified f' = f_modified f /\ (q <> p -> f_accessed f' = f_accessed f)
+  | None, None => True
+  | _, _ => False
+  end.
+Proof. exact get_reader_only_atime. Qed.
+
 Print Assumptions C19_set_creation.
 Print Assumptions C19_set_modification.
 Print Assumptions C19_set_access.
@@ -124,3 +137,4 @@ Print Assumptions C19_example.
 Print Assumptions C19_physical_modification.
 Print Assumptions C19_physical_access.
 Print Assumptions C19_physical_absent.
+Print Assumptions C19_open_file_stamps_only_the_access_time.
